@@ -36,7 +36,8 @@ pub fn build_cuts(rng: &mut Rng, nconn: usize, max_calls: usize, allow_write_fai
                     kind,
                     seq: 1 + j as u32,
                     oneway: rng.chance(1, 10),
-                    more: kind == Kind::Sub || rng.chance(1, 10),
+                    // a streaming method called without the `more` flag is still answered by the service with a stream
+                    more: if kind == Kind::Sub { !rng.chance(1, 6) } else { rng.chance(1, 10) },
                     payload: payload(rng).chars().take(30).collect(),
                 }
             })
